@@ -225,6 +225,15 @@ static J gensalt_op(Rng &g, bool allow_static, bool allow_auto, bool cheap_only)
       case 7: case 8: count = 1000 + g.below(5000); break; case 9: count = 4 + g.below(500); break; case 10: count = g.below(70000); break; case 13: count = 1 + g.below(1000); break; default: count = g.below(3); }
     if (g.chance(1, 10)) count = 1ul << g.below(40);   // mostly out of range
   }
+  if (!strcmp(k, "gensalt")) {
+    // the static result may be handed straight to crypt() later in the history: keep it cheap to hash
+    static const int cheap_mi[] = {0, 1, 3, 4, 5, 6, 7, 8, 9, 11, 12, 13, 14, 15};
+    static const unsigned long cheap_count[] = {1, 1, 4, 4, 4, 4, 1000, 1000, 8, 0, 0, 1, 0, 0};
+    size_t c = g.below(14); mi = cheap_mi[c]; count = cheap_count[c];
+    if ((mi == 7 || mi == 8) && g.chance(1, 2)) count = 1000 + g.below(600);
+    if (mi == 13) count = 1 + 2 * g.below(30);
+    op["pf"] = Bytes(std::string(PREFIX[mi])).to_json();
+  }
   op["count"] = (long long)count;
   if (allow_auto && g.chance(2, 5)) op["rb"] = J();
   else {
@@ -444,7 +453,7 @@ static J plan_c17(uint64_t seed, const std::string &tier) {
       int o = (int)g.below((uint64_t)nobj); op["k"] = "setkey_r"; op["obj"] = o; op["key"] = (!lastkey.empty() && g.chance(1, 2)) ? lastkey : hex64(g, (int)g.below(4)); keyed[(size_t)o] = 1;
     } else if (x < 75) {
       int o = (int)g.below((uint64_t)nobj);
-      if (!keyed[(size_t)o] && !g.chance(1, 10)) { op["k"] = "setkey_r"; op["obj"] = o; op["key"] = hex64(g, 0); keyed[(size_t)o] = 1; }
+      if (!keyed[(size_t)o]) { op["k"] = "setkey_r"; op["obj"] = o; op["key"] = hex64(g, 0); keyed[(size_t)o] = 1; }
       else { op["k"] = "encrypt_r"; op["obj"] = o; op["blk"] = (!lastblk.empty() && g.chance(1, 2)) ? lastblk : hex64(g, (int)g.below(3)); op["flag"] = (long long)g.below(2); }
     } else if (x < 83) {
       op["k"] = "des_block"; op["key"] = hexenc(rnd_bytes(g, 8)); op["blk"] = hexenc(rnd_bytes(g, 8)); op["flag"] = (long long)g.below(2); op["gseed"] = (long long)g.below(1000);
@@ -579,7 +588,117 @@ static J plan_c08(uint64_t seed, const std::string &tier) {
   return p;
 }
 
+// C12 workload B: fallback entropy chain under a seeded syscall fault schedule; faults stop after a while
+static J plan_c12b(uint64_t seed, const std::string &tier) {
+  Rng g(seed, "plan");
+  J p = base_plan("C12", "rng", seed, tier, g);
+  int variant = (int)g.below(8);
+  p["rng_variant"] = variant;
+  J t = J::obj(); t["objs"] = J::arr(); t["slots"] = 0;
+  J ops = J::arr();
+  int n = (int)g.range(1, 8), faulty = (int)g.below((uint64_t)n + 1);
+  int mi = (int)g.below(17);
+  for (int i = 0; i < n; i++) {
+    if (g.chance(1, 3)) mi = (int)g.below(17);
+    J op = J::obj(); static const char *ks[] = {"gensalt", "gensalt_rn", "gensalt_ra"};
+    op["k"] = ks[g.below(3)];
+    if (mi == 16) op["pf"] = J(); else op["pf"] = Bytes(std::string(PREFIX[mi])).to_json();
+    op["count"] = 0; op["rb"] = J(); op["nrb"] = 0;
+    if (i < faulty) {
+      J sc = J::obj();
+      auto outcomes = [&](const char *src, std::vector<const char *> kinds, unsigned pct) {
+        if (!g.chance(pct, 100)) return;
+        J a = J::arr(); int k = (int)g.range(1, 2);
+        for (int j = 0; j < k; j++) { std::string o = kinds[g.below(kinds.size())]; if (o == "short:") o += std::to_string(g.range(0, 20)); a.push(o); }
+        sc[src] = a;
+      };
+      if (variant & 1) outcomes("getentropy", {"enosys", "eio", "eintr"}, 75);
+      if (variant & 2) outcomes("getrandom", {"enosys", "eintr", "short:", "eagain", "eio"}, 75);
+      if (variant & 4) outcomes("sys_getrandom", {"enosys", "eintr", "short:", "eio"}, 75);
+      if (g.chance(1, 2)) outcomes("open", {"enoent", "emfile", "eacces"}, 60);
+      else outcomes("read", {"short:", "eio", "eintr", "short:"}, 70);
+      if (sc.size()) op["script"] = sc;
+    }
+    ops.push(op);
+    if (g.chance(1, 5)) { J fr = J::obj(); fr["k"] = "free_results"; ops.push(fr); }
+  }
+  t["ops"] = ops; p["tasks"].push(t);
+  return p;
+}
+
+// C17 thread part: the _r DES functions on distinct objects from several tasks
+static J plan_c17t(uint64_t seed, const std::string &tier) {
+  Rng g(seed, "plan"); Pool &pool = pool_for(seed >> 6);
+  J p = base_plan("C17", "thr", seed, tier, g);
+  int nt = (int)g.range(2, 4);
+  for (int ti = 0; ti < nt; ti++) {
+    int nobj = 1 + (int)g.below(2);
+    J t = J::obj(); t["objs"] = mk_objs(g, nobj); t["slots"] = 1;
+    J ops = J::arr(); int n = (int)g.range(2, 7);
+    std::vector<int> keyed((size_t)nobj, 0);
+    for (int i = 0; i < n; i++) {
+      J op = J::obj(); unsigned x = (unsigned)g.below(100);
+      int o = (int)g.below((uint64_t)nobj);
+      if (x < 35 || !keyed[(size_t)o]) { op["k"] = "setkey_r"; op["obj"] = o; op["key"] = hex64(g, (int)g.below(4)); keyed[(size_t)o] = 1; }
+      else if (x < 75) { op["k"] = "encrypt_r"; op["obj"] = o; op["blk"] = hex64(g, (int)g.below(3)); op["flag"] = (long long)g.below(2); }
+      else if (x < 85) { op["k"] = "des_block"; op["key"] = hexenc(rnd_bytes(g, 8)); op["blk"] = hexenc(rnd_bytes(g, 8)); op["flag"] = (long long)g.below(2); op["gseed"] = (long long)g.below(1000); }
+      else {
+        Req r = valid_req(g, pool, false, 2);
+        for (int tries = 0; tries < 40 && r.m != "descrypt" && r.m != "bigcrypt" && r.m != "bsdicrypt"; tries++) r = valid_req(g, pool, false, 2);
+        op["k"] = g.chance(1, 2) ? "crypt_r" : "crypt_rn"; op["obj"] = o; put_req(op, r); keyed[(size_t)o] = 0;
+      }
+      ops.push(op);
+    }
+    t["ops"] = ops; p["tasks"].push(t);
+  }
+  J sch = J::obj(); sch["mode"] = "seeded"; sch["seed"] = (long long)(seed ^ 0x17); sch["d"] = (long long)g.below(9); sch["bias"] = 1;
+  p["schedule"] = sch;
+  return p;
+}
+
+// C05 thorough sweep: every forbidden byte value at one position of one valid setting per method,
+// always on an object that currently holds a successful hash.
+static J plan_c05sweep(uint64_t idx, long *total) {
+  Pool &pool = pool_for(0);
+  struct Item { int mi; std::string st; size_t pos; bool insert; };
+  static std::vector<Item> items;
+  if (items.empty())
+    for (int mi = 0; mi < 16; mi++) {
+      std::string st; for (auto &v : pool.valid) if (v.m == METHODS[mi] && v.s.size() < 70) { st = v.s; break; }
+      if (st.empty()) continue;
+      for (size_t pos = 0; pos <= st.size() && pos < 64; pos++) { if (pos < st.size()) items.push_back({mi, st, pos, false}); items.push_back({mi, st, pos, true}); }
+    }
+  if (total) *total = (long)items.size();
+  if (idx >= items.size()) return J();
+  const Item &it = items[idx];
+  Rng g(idx, "sweep");
+  J p = base_plan("C05", "asan", idx, "sweep", g);
+  J t = J::obj(); t["objs"] = mk_objs(g, 1); t["slots"] = 1;
+  J ops = J::arr();
+  const std::string phrase = "sweep-phrase";
+  int nth = 0;
+  static const char *eks[] = {"crypt_r", "crypt_rn", "crypt_ra", "crypt"};
+  for (int c = 1; c < 256; c++) {
+    bool forbidden = c <= 0x20 || c >= 0x7f || strchr(":;*!\\", c);
+    if (!forbidden) continue;
+    const char *ek = eks[nth % 4];
+    if (nth % 16 < 4) {   // refresh: a success through this entry point, so the failure hits a "holds a hash" state
+      J ok = J::obj(); ok["k"] = ek; if (!strcmp(ek, "crypt_r") || !strcmp(ek, "crypt_rn")) ok["obj"] = 0; if (!strcmp(ek, "crypt_ra")) ok["slot"] = 0;
+      ok["ph"] = Bytes(phrase).to_json(); ok["st"] = Bytes(it.st).to_json(); ok["m"] = METHODS[it.mi]; ok["cls"] = "valid"; ops.push(ok);
+    }
+    std::string s = it.st; if (it.insert) s.insert(it.pos, 1, (char)c); else s[it.pos] = (char)c;
+    J op = J::obj(); op["k"] = ek; if (!strcmp(ek, "crypt_r") || !strcmp(ek, "crypt_rn")) op["obj"] = 0; if (!strcmp(ek, "crypt_ra")) op["slot"] = 0;
+    op["ph"] = Bytes(phrase).to_json(); op["st"] = Bytes(s).to_json(); op["m"] = METHODS[it.mi]; op["cls"] = "forbidden-byte"; op["mustfail"] = "forbidden-byte";
+    ops.push(op); nth++;
+  }
+  t["ops"] = ops; p["tasks"].push(t);
+  return p;
+}
+
 J generate_plan(const std::string &prop, uint64_t seed, const std::string &tier) {
+  if (prop == "C12B") return plan_c12b(seed, tier);
+  if (prop == "C17t") return plan_c17t(seed, tier);
+  if (prop == "C05sweep") { long total = 0; J p = plan_c05sweep(seed, &total); if (p.is_null()) { J e = J::obj(); e["total"] = (long long)total; return e; } return p; }
   if (prop == "C07") return plan_c07(seed, tier, false, "C07");
   if (prop == "C05") return plan_c05(seed, tier);
   if (prop == "C09") return plan_c09(seed, tier);
